@@ -11,6 +11,12 @@
        until the end of the match: look-up and store are ONE critical section of the cache lock;
      - Gatekeeper::add_update_appointment holds `users` for the whole function and takes `db` twice
        under it (read the stored length; write the new balance);
+     - Gatekeeper::filtered_block_connected decides who is outdated and removes them from the map and from
+       the database in ONE critical section of `users` (`db` nested), then stores the height;
+     - a user that vanished between two critical sections of a request (purged by a block) makes the
+       request answer an authentication / subscription failure: has_subscription_expired, add_update_appointment,
+       store_appointment (foreign key) and get_user_info return errors, they do not unwrap; a breached
+       appointment that is gone when handle_breaches loads it is skipped;
      - the three AtomicU32 heights are read/written by actions of their own, outside any lock
        (except the gatekeeper height read inside has_subscription_expired, which the code performs
        while holding `users`);
@@ -134,24 +140,26 @@ Section Programs.
         Ret (RegOk (u_slots ui) (u_start ui) (u_expiry ui))
     end.
 
-  Definition charge_user (u : N) (t : tower) : res uinfo :=
-    match gk_get t u with None => Abort S_gk_charge_user_unwrap t | Some ui => Ok ui t end.
-
   Definition used_slots (uuid : N * N) (t : tower) : N :=
     match find_app (db_apps t) uuid with Some a => slots_of (b_len (a_blob a)) | None => 0 end.
 
   (* Gatekeeper::add_update_appointment: `users` for the whole function; `db` once to read the
-     stored length, once more to write the balance.  Some s = Ok(available), None = NotEnoughSlots *)
+     stored length, once more to write the balance.  Some s = Ok(available), None = NotEnoughSlots
+     (also when the user is not in the map any more: `get_mut(..).ok_or(NotEnoughSlots)?`) *)
   Definition charge_p (u : N) (uuid : N * N) (blen : N) : prog (option N) :=
     acq L_users ;;;
-    ui <- act (charge_user u) ;;
-    acq L_db ;;; used <- rd (used_slots uuid) ;; rel L_db ;;;
-    let required := slots_of blen in
-    if N.leb required (u_slots ui + used) then
-      let s := (u_slots ui + used - required) mod U32MOD in
-      acq L_db ;;; wr (fun t => p_set_user t u (mk_uinfo s (u_start ui) (u_expiry ui))) ;;; rel L_db ;;;
-      rel L_users ;;; Ret (Some s)
-    else rel L_users ;;; Ret None.
+    oui <- rd (fun t => gk_get t u) ;;
+    match oui with
+    | None => rel L_users ;;; Ret None
+    | Some ui =>
+        acq L_db ;;; used <- rd (used_slots uuid) ;; rel L_db ;;;
+        let required := slots_of blen in
+        if N.leb required (u_slots ui + used) then
+          let s := (u_slots ui + used - required) mod U32MOD in
+          acq L_db ;;; wr (fun t => p_set_user t u (mk_uinfo s (u_start ui) (u_expiry ui))) ;;; rel L_db ;;;
+          rel L_users ;;; Ret (Some s)
+        else rel L_users ;;; Ret None
+    end.
 
   (* Gatekeeper::delete_appointments: users, then db, both to the end of the function *)
   Definition delete_apps_p (us : list (N * N)) (refund : bool) : prog unit :=
@@ -166,14 +174,14 @@ Section Programs.
     | Some _ => acq L_users ;;; r <- rd (fun t => authenticate t signer) ;; rel L_users ;;; Ret r
     end.
 
-  (* Gatekeeper::has_subscription_expired(..).unwrap(): the unwrap happens after the guard is gone *)
-  Definition expired_p (u : N) : prog (bool * N) :=
+  (* Gatekeeper::has_subscription_expired: None = the user is not in the map (any more); the callers answer
+     an authentication failure *)
+  Definition expired_p (u : N) : prog (option (bool * N)) :=
     acq L_users ;;;
     r <- rd (fun t => match gk_get t u with
                       | Some ui => Some (N.leb (u_expiry ui) (gk_height t), u_expiry ui)
                       | None => None end) ;;
-    rel L_users ;;;
-    match r with Some x => Ret x | None => panic S_api_expired_unwrap end.
+    rel L_users ;;; Ret r.
 
   (* Gatekeeper::filtered_block_connected *)
   Definition find_outdated (h : N) (t : tower) : res (list N) :=
@@ -184,13 +192,16 @@ Section Programs.
   Definition forget_users (outd : list N) (t : tower) : tower :=
     set_gk_users t (aretain (fun u => negb (memN u outd)) (gk_users t)).
 
+  (* who is outdated is decided, and they are removed from memory and from the database, in ONE critical
+     section of `users` (db nested: users before db, as everywhere else) *)
   Definition gk_connect_p (h : N) : prog unit :=
-    acq L_users ;;; outd <- act (find_outdated h) ;; rel L_users ;;;
+    acq L_users ;;; outd <- act (find_outdated h) ;;
     (match outd with
      | [] => Ret tt
-     | _ => acq L_users ;;; wr (forget_users outd) ;;; rel L_users ;;;
+     | _ => wr (forget_users outd) ;;;
             acq L_db ;;; wr (fun t => db_delete_users t outd) ;;; rel L_db
      end) ;;;
+    rel L_users ;;;
     wr (fun t => set_gk_height t h).
 
   Definition store_height (set : tower -> N -> tower) (h : N) (s : site) (t : tower) : res unit :=
@@ -323,31 +334,40 @@ Section Programs.
 
   (* ---- Watcher ---- *)
 
-  Definition store_appointment_p (a : app) : prog unit :=
-    acq L_db ;;; act (fun t => w_store_appointment t a) ;;; rel L_db.
+  (* Watcher::store_appointment, one critical section of db: false = StoredAppointment::UnknownUser (the
+     INSERT failed on the foreign key, nothing stored) *)
+  Definition store_act (a : app) (t : tower) : res bool :=
+    match w_store_appointment t a with
+    | Ok _ t' => Ok (w_store_ok t a) t'
+    | Abort s t' => Abort s t'
+    end.
+  Definition store_appointment_p (a : app) : prog bool :=
+    acq L_db ;;; ok <- act (store_act a) ;; rel L_db ;;; Ret ok.
 
-  (* Watcher::store_triggered_appointment (runs with the locator-cache guard held) *)
-  Definition store_triggered_p (a : app) (dispute : N) : prog unit :=
+  (* Watcher::store_triggered_appointment (runs with the locator-cache guard held); false = UnknownUser *)
+  Definition store_triggered_p (a : app) (dispute : N) : prog bool :=
     match decrypt (a_blob a) dispute with
     | Some penalty =>
-        store_appointment_p a ;;;
-        s <- handle_breach_p (app_uuid a) dispute penalty ;;
-        if status_rejected s then delete_apps_p [app_uuid a] false else Ret tt
+        ok <- store_appointment_p a ;;
+        if ok then
+          s <- handle_breach_p (app_uuid a) dispute penalty ;;
+          (if status_rejected s then delete_apps_p [app_uuid a] false else Ret tt) ;;; Ret true
+        else Ret false
     | None =>
         acq L_db ;;; ex <- rd (fun t => match find_app (db_apps t) (app_uuid a) with Some _ => true | None => false end) ;;
         rel L_db ;;;
-        if ex then delete_apps_p [app_uuid a] false else Ret tt
+        (if ex then delete_apps_p [app_uuid a] false else Ret tt) ;;; Ret true
     end.
 
   (* the critical section of the locator cache in add_appointment: look-up AND store *)
-  Definition cache_section_p (a : app) : prog unit :=
+  Definition cache_section_p (a : app) : prog bool :=
     acq L_cache ;;;
     od <- rd (fun t => ti_get (w_cache t) (a_loc a)) ;;
-    (match od with
-     | Some dispute => store_triggered_p a dispute
-     | None => store_appointment_p a
-     end) ;;;
-    rel L_cache.
+    ok <- (match od with
+           | Some dispute => store_triggered_p a dispute
+           | None => store_appointment_p a
+           end) ;;
+    rel L_cache ;;; Ret ok.
 
   Definition has_tracker_p (uuid : N * N) : prog bool :=
     acq L_db ;;; r <- rd (fun t => match find_trk (db_trks t) uuid with Some _ => true | None => false end) ;;
@@ -360,24 +380,30 @@ Section Programs.
     match ou with
     | None => Ret (inl AddAuthOrSlots)
     | Some u =>
-        e <- expired_p u ;;
-        if fst e then Ret (inl (AddExpired (snd e)))
-        else
-          start <- rd w_height ;;
-          ht <- has_tracker_p (loc, u) ;;
-          if ht then Ret (inl AddTriggered)
-          else
-            ch <- charge_p u (loc, u) (b_len b) ;;
-            match ch with
-            | None => Ret (inl AddAuthOrSlots)
-            | Some available => Ret (inr (mk_app loc u b delay sig start, available, snd e))
-            end
+        oe <- expired_p u ;;
+        match oe with
+        | None => Ret (inl AddAuthOrSlots)
+        | Some e =>
+            if fst e then Ret (inl (AddExpired (snd e)))
+            else
+              start <- rd w_height ;;
+              ht <- has_tracker_p (loc, u) ;;
+              if ht then Ret (inl AddTriggered)
+              else
+                ch <- charge_p u (loc, u) (b_len b) ;;
+                match ch with
+                | None => Ret (inl AddAuthOrSlots)
+                | Some available => Ret (inr (mk_app loc u b delay sig start, available, snd e))
+                end
+        end
     end.
 
   Definition add_finish (x : add_result + (app * N * N)) : prog add_result :=
     match x with
     | inl r => Ret r
-    | inr (a, available, expiry) => cache_section_p a ;;; Ret (AddOk (a_start a) (a_sig a) available expiry)
+    | inr (a, available, expiry) =>
+        ok <- cache_section_p a ;;
+        Ret (if ok then AddOk (a_start a) (a_sig a) available expiry else AddAuthOrSlots)
     end.
 
   (* Watcher::add_appointment *)
@@ -397,9 +423,36 @@ Section Programs.
     match ou with
     | None => Ret GetAuth
     | Some u =>
-        e <- expired_p u ;;
-        if fst e then Ret (GetExpired (snd e))
-        else acq L_db ;;; r <- rd (load_for_get (loc, u)) ;; rel L_db ;;; Ret r
+        oe <- expired_p u ;;
+        match oe with
+        | None => Ret GetAuth
+        | Some e =>
+            if fst e then Ret (GetExpired (snd e))
+            else acq L_db ;;; r <- rd (load_for_get (loc, u)) ;; rel L_db ;;; Ret r
+        end
+    end.
+
+  (* Watcher::get_subscription_info: authenticate, expiry test, then Gatekeeper::get_user_info (the user map's
+     guard is a temporary of the first statement, the database is locked by the second one) *)
+  Definition get_subscription_info_p (signer : option N) : prog sub_result :=
+    ou <- authenticate_p signer ;;
+    match ou with
+    | None => Ret SubAuth
+    | Some u =>
+        oe <- expired_p u ;;
+        match oe with
+        | None => Ret SubAuth
+        | Some e =>
+            if fst e then Ret (SubExpired (snd e))
+            else
+              acq L_users ;;; oi <- rd (fun t => gk_get t u) ;; rel L_users ;;;
+              match oi with
+              | None => Ret SubAuth
+              | Some ui =>
+                  acq L_db ;;; locs <- rd (fun t => map a_loc (filter (fun a => N.eqb (a_user a) u) (db_apps t))) ;;
+                  rel L_db ;;; Ret (SubOk (u_slots ui) (u_expiry ui) locs)
+              end
+        end
     end.
 
   Definition update_cache (b : iblock N) (t : tower) : res unit :=
@@ -411,20 +464,22 @@ Section Programs.
     filter (fun d => existsb (fun a => N.eqb (a_loc a) d) (db_apps t)) txs.
   Definition load_uuids (d : N) (t : tower) : list (N * N) :=
     map app_uuid (filter (fun a => N.eqb (a_loc a) d) (db_apps t)).
-  Definition load_breached (uuid : N * N) (t : tower) : res app :=
-    match find_app (db_apps t) uuid with None => Abort S_w_load_appointment_unwrap t | Some a => Ok a t end.
-
-  (* Watcher::handle_breaches: the database is locked per statement, never over the loop *)
+  (* Watcher::handle_breaches: the database is locked per statement, never over the loop; a uuid whose row is
+     gone by the time it is loaded is skipped *)
   Fixpoint breach_uuid_loop_p (d : N) (us : list (N * N)) (invalid : list (N * N)) : prog (list (N * N)) :=
     match us with
     | [] => Ret invalid
     | uuid :: r =>
-        acq L_db ;;; a <- act (load_breached uuid) ;; rel L_db ;;;
-        match decrypt (a_blob a) d with
-        | Some p =>
-            s <- handle_breach_p uuid d p ;;
-            breach_uuid_loop_p d r (if status_rejected s then invalid ++ [uuid] else invalid)
-        | None => breach_uuid_loop_p d r (invalid ++ [uuid])
+        acq L_db ;;; oa <- rd (fun t => find_app (db_apps t) uuid) ;; rel L_db ;;;
+        match oa with
+        | None => breach_uuid_loop_p d r invalid
+        | Some a =>
+            match decrypt (a_blob a) d with
+            | Some p =>
+                s <- handle_breach_p uuid d p ;;
+                breach_uuid_loop_p d r (if status_rejected s then invalid ++ [uuid] else invalid)
+            | None => breach_uuid_loop_p d r (invalid ++ [uuid])
+            end
         end
     end.
 
@@ -485,6 +540,8 @@ Section Programs.
     reach_p ;;; r <- add_appointment_p signer loc b delay sig ;; Ret (OAddRes r).
   Definition get_p (signer : option N) (loc : N) : prog out :=
     reach_p ;;; r <- get_appointment_p signer loc ;; Ret (OGetRes r).
+  Definition getsub_p (signer : option N) : prog out :=
+    reach_p ;;; r <- get_subscription_info_p signer ;; Ret (OSubRes r).
 
   (* the chain monitor's thread: block events one after the other.  `h` = height of the tip and
      `stack` = hashes of the blocks the indexes hold (newest first) when the thread starts *)
@@ -506,7 +563,7 @@ Section Programs.
     | ORegister u => register_p u
     | OAdd signer loc b delay sig => add_p signer loc b delay sig
     | OGet signer loc => get_p signer loc
-    | OGetSub _ => Ret (OSubRes SubAuth)             (* not in C10's quantifier: no thread program *)
+    | OGetSub signer => getsub_p signer
     | OConnect _ _ | ODisconnect =>
         chain_p (gk_height t0) (rev (ti_blocks (r_index t0))) [o] ;;; Ret OBlockRes
     end.
